@@ -220,14 +220,11 @@ def _unseen_dropped(chk):
     chk.require(n_obl >= 1, "UNSEEN.dropped: no stage before the sanitizer re-attaches a coordinate recorded by its transform (anchor vanished)")
 
 
-def check(chk):
-    _unseen_dropped(chk)
+def _unseen_pure(chk):
+    """UNSEEN.pure - the label-restoring methods of the transform path read what THIS transform call recorded, never the
+    sample coordinates remembered at fit (shared with C04: the projection of the training data is labelled by the same path,
+    so a fall-back to fit-time state makes its labels depend on what was transformed before)"""
     pm = chk.pm
-    sinks = fitted_label_sinks(pm)
-    chk.info["fitted_label_sinks"] = {k: sorted(v[2]) for k, v in sinks.items()}
-    fitted = {k for k in sinks if k.endswith(".inverse_transform_scores")}
-    chk.require(len(fitted) >= 2, f"fit-sample-bound label restorers not found (derived: {sorted(sinks)}); the rule would pass vacuously")
-    # UNSEEN.pure
     for cls in transformer_classes(pm):
         m = cls.resolve("inverse_transform_scores_unseen")
         if m is None or m.is_abstract:
@@ -236,6 +233,16 @@ def check(chk):
         r = reads_in(pm, cls, m, {}) & state
         chk.check(not r, "UNSEEN.pure", m, m.node, construct=f"{cls.name}.inverse_transform_scores_unseen reads no fit-time sample coordinates",
                   why=f"the unseen-data path reads {sorted(r)}, which fit filled from the training samples: new samples get training labels")
+
+
+def check(chk):
+    _unseen_dropped(chk)
+    pm = chk.pm
+    sinks = fitted_label_sinks(pm)
+    chk.info["fitted_label_sinks"] = {k: sorted(v[2]) for k, v in sinks.items()}
+    fitted = {k for k in sinks if k.endswith(".inverse_transform_scores")}
+    chk.require(len(fitted) >= 2, f"fit-sample-bound label restorers not found (derived: {sorted(sinks)}); the rule would pass vacuously")
+    _unseen_pure(chk)
     # UNSEEN.labelfree: the unseen path must not align by sample labels (new data may repeat labels)
     from .c14 import self_closure
     LABEL_ALIGN = {"reindex", "reindex_like", "sel", "loc", "combine_first", "interp", "interp_like", "align", "merge", "drop_sel"}
